@@ -119,7 +119,8 @@ type propCfg struct {
 func tc(runs, chunk, budget int) tierCfg { return tierCfg{Runs: runs, Chunk: chunk, Budget: budget, PerRun: 20} }
 
 var props = map[string]propCfg{
-	"C03": {Quick: tc(3000, 100, 40), Thorough: tc(150000, 250, 900)},
+	"C03": {Quick: tc(2000, 100, 45), Thorough: tc(150000, 250, 900)},
+	"C15": {Quick: tc(4000, 100, 45), Thorough: tc(40000, 100, 900), Race: true},
 }
 
 func fatalf(f string, a ...any) {
@@ -337,6 +338,7 @@ func attachRaces(res *jobResult) {
 	}
 }
 
+var adaptorRe = regexp.MustCompile(`interceptor\.(RTP|RTCP)(Writer|Reader)Func\.`)
 var frameRe = regexp.MustCompile(`^\s+(github\.com/pion/interceptor\S*)\(`)
 
 // raceSig builds "race:<funcA>|<funcB>" from the innermost pion/interceptor
@@ -373,6 +375,9 @@ func raceSig(block []string) (string, bool) {
 		f := ""
 		for _, l := range st {
 			if m := frameRe.FindStringSubmatch(l); m != nil {
+				if adaptorRe.MatchString(m[1]) {
+					continue // RTPWriterFunc.Write etc. merely wrap a (harness) function
+				}
 				f = strings.TrimPrefix(m[1], "github.com/pion/interceptor/")
 				break
 			}
